@@ -23,6 +23,7 @@ structure VmState where
   loaded : List VisitorMgr.VCfg := []
   gens : List (Nat × Nat) := []   -- visitor stamp → generation under its name
   cnt : List (Nat × Nat) := []    -- name → number of visitor objects seen
+  quiet : Bool := false           -- Close() has been called and no UpdateAll since
 
 def vmPool : List Nat := [1, 2, 3, 4, 5]
 
@@ -45,7 +46,8 @@ def vmRender (st : VmState) : String :=
   let run := ",".intercalate (sortStrings (st.m.visitors.map (fun v =>
     s!"{v.cfg.name}.{((st.gens.find? (·.1 == v.id)).map (·.2)).getD 0}")))
   let busy := ",".intercalate ((vmPool.filter (busy st.m)).map toString)
-  s!"cfg={cfg};run={run};busy={busy}"
+  let held := ",".intercalate ((vmPool.filter st.m.squat.contains).map toString)
+  s!"cfg={cfg};run={run};busy={busy};held={held}" ++ (if st.quiet then ";closed" else "")
 
 def splitList (s : String) : List String := if s.isEmpty then [] else s.splitOn ","
 
@@ -62,57 +64,99 @@ def parseRunName (t : String) : Option Nat :=
   | [n, _] => n.toNat?
   | _ => none
 
-/-- the implementation's state string -/
-def parseVObs (s : String) : Option C19.VObs :=
+def parseRunGen (t : String) : Option (Nat × Nat) :=
+  match t.splitOn "." with
+  | [n, g] => do let n ← n.toNat?; let g ← g.toNat?; pure (n, g)
+  | _ => none
+
+/-- the implementation's state string: the observation, (name, generation) of every visitor object, the
+    addresses the harness holds -/
+def parseVObs' (s : String) : Option (C19.VObs × List (Nat × Nat) × List Nat) :=
   match s.splitOn ";" with
-  | [c, r, b] =>
-    if !(c.startsWith "cfg=" && r.startsWith "run=" && b.startsWith "busy=") then none else do
+  | c :: r :: b :: h :: rest =>
+    if !(c.startsWith "cfg=" && r.startsWith "run=" && b.startsWith "busy=" && h.startsWith "held=") then none
+    else if rest != [] && rest != ["closed"] then none else do
     let cfg ← parseAll parseTriple (splitList (c.drop 4).toString)
     let run ← parseAll parseRunName (splitList (r.drop 4).toString)
+    let gens ← parseAll parseRunGen (splitList (r.drop 4).toString)
     let busy ← parseAll (fun t => t.toNat?) (splitList (b.drop 5).toString)
-    pure { cfg := cfg, run := run, busy := busy }
+    let held ← parseAll (fun t => t.toNat?) (splitList (h.drop 5).toString)
+    pure ({ cfg := cfg, run := run, busy := busy }, gens, held)
   | _ => none
+
+def parseVObs (s : String) : Option C19.VObs := (parseVObs' s).map (·.1)
+
+/-- (name, generation) of every visitor object of the model -/
+def vmRunGens (st : VmState) : List (Nat × Nat) :=
+  st.m.visitors.map (fun v => (v.cfg.name, ((st.gens.find? (·.1 == v.id)).map (·.2)).getD 0))
 
 /-- the rest of the op: the passes of the keep-alive loop up to the observation -/
 def vmSettle (m1 : Mgr) (obsRun : List Nat) : Mgr :=
   let first := (sortNat obsRun).filter (fun n => !hasVisitor m1.visitors n)
-  let m2 := pass m1 first
-  if m1.closed then m2 else pass m2 (sortNat (m1.cfgs.map (·.name)))
+  let m2 := activePass m1 first
+  if m1.closed then m2 else activePass m2 (sortNat (m1.cfgs.map (·.name)))
 
 /-- finish an op whose deterministic part led to `m1`; `head` = the op's own answer (squat / free) -/
-def vmFinish (st : VmState) (m1 : Mgr) (loaded : List VisitorMgr.VCfg) (head : String) (impl : String) : VmState × Verdict :=
+def vmFinish' (st : VmState) (m1 : Mgr) (loaded : List VisitorMgr.VCfg) (head : String) (impl : String)
+    (quiet : Bool) (reloadFrom : Option (List VisitorMgr.VCfg) := none) : VmState × String × Verdict :=
   let implState := if head.isEmpty then impl else
     (match impl.splitOn ";" with
      | _ :: rest => ";".intercalate rest
      | [] => "")
-  let obs := parseVObs implState
-  let m2 := vmSettle m1 ((obs.map (·.run)).getD [])
-  let st' := vmAssignGens { st with m := m2, loaded := loaded }
+  let obs := parseVObs' implState
+  let m2 := vmSettle m1 ((obs.map (·.1.run)).getD [])
+  let st' := vmAssignGens { st with m := m2, loaded := loaded, quiet := quiet }
   let model := (if head.isEmpty then "" else head ++ ";") ++ vmRender st'
-  let prop := obs.map (fun o => C19.vHoldsOn loaded o && (m2.closed || C19.vSettledOn loaded o))
-  (st', verdictOf model impl prop)
+  let before := vmRunGens st
+  let prop := obs.map (fun (o, gens, held) =>
+    C19.vHoldsOn loaded o && (m2.closed || C19.vSettledOn loaded o) &&
+    -- a reload: unchanged entries keep their visitor object
+    (match reloadFrom with
+     | some prev => C19.vKeptOn prev loaded before gens
+     | none => true) &&
+    -- after Close() (and no reload since) the manager holds no address
+    (!quiet || C19.vClosedQuietOn held o))
+  (st', model, verdictOf model impl prop)
+
+def vmFinish (st : VmState) (m1 : Mgr) (loaded : List VisitorMgr.VCfg) (head : String) (impl : String)
+    (quiet : Bool) (reloadFrom : Option (List VisitorMgr.VCfg) := none) : VmState × Verdict :=
+  let r := vmFinish' st m1 loaded head impl quiet reloadFrom
+  (r.1, r.2.2)
 
 def vmgrStep (st : VmState) (tok : List String) (impl : String) : VmState × Verdict :=
   match tok with
   | ["reset"] => ({}, verdictOf "-" impl)
   | "vupd" :: cs =>
     match parseAll parseVmCfg cs with
-    | some cfgs => vmFinish st (updateAll st.m cfgs) cfgs "" impl
+    | some cfgs => vmFinish st (activeUpdateAll st.m cfgs) cfgs "" impl false (some st.loaded)
     | none => (st, .bad "vupd")
   | ["squat", k] =>
     match k.toNat? with
     | some k =>
       if k == 0 || k > 5 then (st, verdictOf "badport" impl) else
-      vmFinish st (step st.m (.squat k)) st.loaded (if busy st.m k then "taken" else "ok") impl
+      vmFinish st (step st.m (.squat k)) st.loaded (if busy st.m k then "taken" else "ok") impl st.quiet
     | none => (st, .bad "squat")
   | ["free", k] =>
     match k.toNat? with
     | some k =>
       if k == 0 || k > 5 then (st, verdictOf "badport" impl) else
-      vmFinish st (step st.m (.free k)) st.loaded (if st.m.squat.contains k then "ok" else "notheld") impl
+      vmFinish st (step st.m (.free k)) st.loaded (if st.m.squat.contains k then "ok" else "notheld") impl st.quiet
     | none => (st, .bad "free")
-  | ["tick"] => vmFinish st st.m st.loaded "" impl
-  | ["close"] => vmFinish st (VisitorMgr.close st.m) st.loaded "" impl
+  | ["tick"] => vmFinish st st.m st.loaded "" impl st.quiet
+  | ["close"] => vmFinish st (VisitorMgr.close st.m) st.loaded "" impl true
+  | ["closerace", k] =>
+    -- Close() overtakes an iteration of the loop; address k is released in between (0: nothing is)
+    match k.toNat? with
+    | some k =>
+      if k > 5 then (st, verdictOf "badport" impl) else
+      let head := if k == 0 || st.m.squat.contains k then "ok" else "notheld"
+      -- the harness queues Close() first and the iteration behind it; should the runtime have let the
+      -- iteration go first (it asked for the lock before Close() did), the implementation's answer is that
+      -- of "free; pass; Close" — accepted when it is exactly that
+      let a := vmFinish' st (step (VisitorMgr.close st.m) (.free k)) st.loaded head impl true
+      let b := vmFinish' st (VisitorMgr.close (activePass (step st.m (.free k)) (sortNat (st.m.cfgs.map (·.name))))) st.loaded head impl true
+      if a.2.1 != impl && b.2.1 == impl then (b.1, b.2.2) else (a.1, a.2.2)
+    | none => (st, .bad "closerace")
   | ["xfer", n] =>
     match n.toNat? with
     | some n =>
